@@ -45,25 +45,33 @@ func typeName(typ an.Type) string {
 	case *an.Map:
 		return fmt.Sprintf("Map<%s,%s>", typeName(typ.Key), typeName(typ.Elem))
 	case *an.Struct:
-		name := strings.Title(an.LocalName(typ)) // Dart convention
 		// the instantiations of a generic struct are distinct classes (same scheme as the TypeScript generator)
-		typeArgs := typ.Name.TypeArgs()
-		for i := 0; i < typeArgs.Len(); i++ {
-			switch arg := typeArgs.At(i).(type) {
-			case *types.Named:
-				name += "_" + arg.Obj().Name()
-			case *types.Basic: // Generic[int]
-				name += "_" + arg.Name()
-			default:
-				panic("unsupported type argument " + arg.String())
-			}
-		}
-		return name
-	case *an.Named, *an.Enum, *an.Union: // these types are always named
+		return strings.Title(an.LocalName(typ)) + typeArgsSuffix(typ.Name) // Dart convention
+	case *an.Named: // so are the instantiations of a generic slice or map
+		return strings.Title(an.LocalName(typ)) + typeArgsSuffix(typ.Type().(*types.Named))
+	case *an.Enum, *an.Union: // these types are always named
 		return strings.Title(an.LocalName(typ)) // Dart convention
 	default:
 		panic(an.ExhaustiveTypeSwitch + fmt.Sprintf(": %T", typ))
 	}
+}
+
+// typeArgsSuffix distinguishes the instantiations of a generic type :
+// Generic[int] is named Generic_int
+func typeArgsSuffix(named *types.Named) string {
+	var suffix string
+	typeArgs := named.TypeArgs()
+	for i := 0; i < typeArgs.Len(); i++ {
+		switch arg := typeArgs.At(i).(type) {
+		case *types.Named:
+			suffix += "_" + arg.Obj().Name()
+		case *types.Basic: // Generic[int]
+			suffix += "_" + arg.Name()
+		default:
+			panic("unsupported type argument " + arg.String())
+		}
+	}
+	return suffix
 }
 
 func (buf buffer) codeForNamed(typ *an.Named) (gen.Declaration, string) {
